@@ -268,6 +268,57 @@ def gen_session(rng, size, n_ops, tb=False, small=False):
     return ops
 
 
+def gen_alloc_session(rng):
+    """reSize / setupTT-like retry sequences under injected allocation failures (ALLOCFAIL thr: every
+    table of >= thr entries cannot be allocated), each followed by probes and inserts."""
+    n0 = rng.choice([512, 1024, 4096, 65536, 65536, 1 << 20])
+    keys = [gen_key(rng) for _ in range(4)]
+    ops = ["NEW %s" % hx(n0)]
+
+    def use(k=3):
+        for _ in range(k):
+            key = rng.choice(keys)
+            if rng.random() < 0.5:
+                ops.append("INS %s %s %s 0 %s %s %s %s %s 0" % (hx(key), hx(rng.randint(0, 63)), hx(rng.randint(0, 63)), hx(rand_score(rng)),
+                                                              hx(rng.randint(1, 3)), hx(rng.randint(0, 60)), hx(rng.randint(0, 100)), hx(rng.randint(-300, 300))))
+            else:
+                ops.append("PROBE %s 0 0" % hx(key))
+    use()
+    cur = n0
+    for _ in range(rng.randint(2, 5)):
+        k = rng.randrange(6)
+        if k == 0:      # Hash raised under memory pressure: the halving chain lands exactly on the old size
+            ops.append("ALLOCFAIL %s" % hx(cur + 4))
+            ops.append("SETUPTT %s" % hx(cur << rng.randint(1, 7)))
+        elif k == 1:    # failed reSize, table unusable meanwhile, then the old size again
+            ops.append("ALLOCFAIL %s" % hx(cur + rng.choice([4, 8, 1000])))
+            ops.append("RESIZE %s" % hx(cur * rng.choice([2, 3, 64]) + rng.randint(0, 3)))
+            use(2)
+            ops.append("RESIZE %s" % hx(cur + rng.randint(0, 3)))
+        elif k == 2:    # chain that does not hit the old size
+            thr = rng.choice([cur, cur // 2 + 4, cur * 2, 520])
+            ops.append("ALLOCFAIL %s" % hx(thr))
+            ops.append("SETUPTT %s" % hx(cur * rng.choice([3, 5, 6, 12]) + rng.randint(0, 7)))
+        elif k == 3:    # nothing can be allocated at all: the object stays without a table
+            ops.append("ALLOCFAIL 4")
+            ops.append("SETUPTT %s" % hx(cur * rng.choice([1, 2, 16])))
+            use(2)
+            ops.append("ALLOCFAIL 0")
+            ops.append("RESIZE %s" % hx(cur))
+        elif k == 4:    # no failure: early return on the same (rounded) size keeps the contents
+            ops.append("ALLOCFAIL 0")
+            ops.append("RESIZE %s" % hx(cur + rng.randint(0, 3)))
+        else:
+            ops.append("ALLOCFAIL 0")
+            cur = rng.choice([512, 1000, 1024, 4096, 65536])
+            ops.append("RESIZE %s" % hx(cur))
+        use()
+        # bring the table back to a known size: the next scenario's "old size"
+        ops.append("ALLOCFAIL 0")
+        ops.append("SETUPTT %s" % hx(cur))
+    return ops
+
+
 # ---------------------------------------------------------------------------------------
 def private_copy(exe):
     """The shared build cache purges old entries whenever ANY check builds something; keep a
@@ -294,8 +345,10 @@ def run_both(cpp_exe, ml_exe, lines, timeout=900):
 
 
 def first_diff(a, b):
+    def norm(l):
+        return " ".join(w for w in l.split() if not w.startswith("sig="))
     for i, (x, y) in enumerate(zip(a, b)):
-        if x != y and not (x.startswith("T ") and y.startswith("T ")):
+        if norm(x) != norm(y) and not (x.startswith("T ") and y.startswith("T ")):
             return i
     if len(a) != len(b):
         return min(len(a), len(b))
@@ -334,16 +387,45 @@ def spec_check_session(ops, out):
     tsize = None
     contempt_on = False
     inserted = {}      # key -> list of (move, score, ply, depth, type, eval, busy)
+    thr = 0            # ALLOCFAIL threshold in entries (0 = allocations succeed)
+    must_be_valid = False   # the last (re)size operation returned normally and some request could be granted
+    valid = True
     for i, (op, line) in enumerate(zip(ops, out)):
         t = op.split()
         r = line.split()
+        if t[0] == "ALLOCFAIL":
+            thr = unhx(t[1])
+        if r and r[0] == "NULL" and must_be_valid:
+            return dict(kind="reSize returned normally but the table pointer is null: this operation indexes off a null table",
+                        op_index=i, op=op, observed=line, tableSize_believed=r[1])
         if r and r[0] == "S":
             tsize, used = unhx(r[1]), unhx(r[2])
+            valid = (r[9] == "1") if len(r) > 9 else True
+            if t[0] in ("NEW", "RESIZE", "SETUPTT"):
+                x = int(r[-1][2:]) if r[-1].startswith("x=") else 0
+                if t[0] == "RESIZE":
+                    must_be_valid = (x == 0)
+                elif t[0] == "SETUPTT":
+                    must_be_valid = (thr == 0 or thr > 8) and unhx(t[1]) >= 1
+                else:
+                    must_be_valid = True
+                n = unhx(t[1])
+                want = max(4, n) & ~3
+                if must_be_valid and not valid:
+                    return dict(kind="reSize returned normally but left a null table pointer (tableSize still %d)" % tsize,
+                                op_index=i, op=op, observed=line)
+                if t[0] in ("NEW", "RESIZE") and must_be_valid and tsize != want:
+                    return dict(kind="reSize returned normally with the wrong table size", op_index=i, op=op, observed=line, expected=want)
+                if not valid and tsize != 0:
+                    return dict(kind="null table pointer but tableSize != 0 (a later reSize to that size would return without allocating)",
+                                op_index=i, op=op, observed=line)
+            if not valid:
+                used = None      # no table: nothing to bound
             if t[0] in ("NEW", "CLEAR"):
                 inserted = {}           # cleared table: earlier records are gone
-            if used is not None and tsize is not None and used > tsize:
+            if valid and used is not None and tsize is not None and used > tsize:
                 return dict(kind="usedSize > tableSize", op_index=i, op=op, observed=line)
-        if t[0] == "RESIZE":
+        if t[0] in ("RESIZE", "SETUPTT"):
             inserted = None       # may or may not have cleared: stop tracking records
         if t[0] == "CONTEMPT" and inserted:
             inserted = None             # internal keys change: stop relating hits to earlier inserts
@@ -572,7 +654,8 @@ def run(ctx):
     ctx.rule = ("(a) leaf self-validation: boundary-biased argument tuples for each of the 36 translated functions, real C++ vs "
                 "extracted Gallina; (b) getIndex on (key,size) tuples: sizes {512,516,1000,1024,65536,2^20-4, Hash=1..64 MB, "
                 "tablebase-reduced}, keys = boundary/random top 16 bits x boundary low bits; (c) single-threaded sessions "
-                "(NEW/RESIZE/CLEAR/GEN/CONTEMPT/INS/PROBE/BUSY/PUTB/GETB/TBW/TBR/TBON/TBOFF) comparing table parameters, the "
+                "(NEW/RESIZE/CLEAR/GEN/CONTEMPT/INS/PROBE/BUSY/PUTB/GETB/TBW/TBR/TBON/TBOFF, plus ALLOCFAIL/RESIZE/SETUPTT retry "
+                "sequences under injected allocation failures) comparing table parameters, pointer validity, the "
                 "probed record and the raw words of the whole bucket after every op; keys drawn from pools sharing a bucket; "
                 "(d) 2-16 threads hammering 8 keys in 2 buckets, every hit validated against Atomic.v. "
                 "non-trivial = session with >=1 key-match or replacement in a full bucket / index tuple with size not a power of "
@@ -682,6 +765,8 @@ def run(ctx):
         else:
             s = rng.choice([4, 8, 100, 256, 260, 508])         # outside the domain: OOR expected, must agree
         sessions.append(("small" if s < 512 else "seq", gen_session(rng, s, rng.randint(10, 70))))
+    for i in range(ctx.scale(150, 5000)):
+        sessions.append(("alloc", gen_alloc_session(rng)))
     for i in range(ctx.scale(6, 60)):
         s = rng.choice([n for n in full if n * 16 >= 7 * 1024 * 1024][:20] + [1 << 20])
         sessions.append(("tb", gen_session(rng, s, rng.randint(20, 60), tb=True)))
@@ -701,8 +786,12 @@ def run(ctx):
         for op in ops:
             ctx.count("op_" + op.split()[0])
         ctx.count("overrun_ops_outside_domain", sum(1 for l in a if l == "OOR"))
-        if kind in ("seq", "tb", "corpus"):
+        if kind in ("seq", "tb", "corpus", "alloc"):
             ctx.nontrivial(" ".join(ops))
+        if kind == "alloc":
+            ctx.count("alloc_bad_alloc_exceptions", sum(int(l.split()[-1][2:]) for l in a if l.startswith("S ") and l.split()[-1].startswith("x=")))
+            ctx.count("alloc_ops_on_null_table", sum(1 for l in a if l.startswith("NULL")))
+            ctx.count("alloc_retry_recovered_after_failures", sum(1 for o, l in zip(ops, a) if o.startswith("SETUPTT") and l.split()[-1] != "x=0" and l.split()[9] == "1"))
         elif kind == "idx":
             for op in ops[1:]:
                 ctx.nontrivial(ops[0] + op)
@@ -714,7 +803,7 @@ def run(ctx):
             sums = [l for l in a if l.startswith("T ")]
             if len(set(sums)) > 1:
                 note_spec(dict(kind="ordinary operations changed the resident tablebase bytes", ops=ops, sums=sums), "tb-region-overwritten")
-            ctx.count("tb_sessions_resident", sum(1 for l in a if l.startswith("S ") and l.split()[-2:] == ["1", "1"]))
+            ctx.count("tb_sessions_resident", sum(1 for o, l in zip(ops, a) if o == "TBON" and l.split()[8] == "1" and l.split()[-1] == "1"))
         if b is not None:
             d = first_diff(a, b)
             if rc2 != 0 or d is not None:
@@ -863,6 +952,9 @@ def replay(ctx, body):
         print("fields after: ", {k: field(d2, k) for k in SPEC_LAYOUT})
         return
     if ops:
+        if ops[-1].split()[0] in ("RESIZE", "SETUPTT"):
+            # show what the next table access does (run in a child process by the harness)
+            ops = list(ops) + ["PROBE ffff000000000123 0 0", "INS ffff000000000123 1 2 0 5 1 0 3 0 0"]
         rc, out, err = sh([cpp_exe, "session"], input="\n".join(ops) + "\n", timeout=300)
         res = out.split("\n")[:-1]
         for o, l in zip(ops, res):
